@@ -36,6 +36,10 @@ var props = map[string]*Prop{
 			{Pkg: "gbn", Harness: "VH_C01_Resend", MustReach: []string{"resend"}, What: "O5: resend transmits exactly the outstanding packets, in order, from their slots (s <= maxn+1, base symbolic)",
 				Quick: q(P("maxn", 4)), Thorough: q(P("maxn", 8))},
 			{Pkg: "gbn", Harness: "VH_C09_Config", MustReach: []string{"config"}, What: "O6: s = n+1, content has s slots", Quick: q(nil)},
+			{Pkg: "gbn", Harness: "VH_C01_Sim", MustReach: []string{"delivered"}, Synctest: true,
+				What:     "(B) bounded whole-endpoint run: real client and server, both loops, tickers, syncer, timeout manager on the virtual clock; bidirectional traffic, symbolic payloads; symbolic fate (deliver/drop/duplicate) of the first `faults` packets of each direction; Recv sequence equals the peer's Send sequence",
+				Quick:    &TierOpt{Params: P("maxn", 2, "msgs", 2, "faults", 3)},
+				Thorough: &TierOpt{Params: P("maxn", 3, "msgs", 3, "faults", 4), Sched: 1, MaxPaths: 3000000}},
 		},
 		Assumptions: append([]string{"channel invariant of DESIGN.md Appendix C (per-direction FIFO with loss and in-place duplication): in-flight DATA has ghost offset in [rho-n, tau), ACK in [-1, rho), NACK in [0, rho]"}, commonAssumptions...),
 		Bounds:      []string{"window size n symbolic 1..254 in O1-O4,O6; n<=4 (quick) / 8 (thorough) in O5; payload 0..2 / 0..6 symbolic bytes"},
@@ -53,6 +57,11 @@ var props = map[string]*Prop{
 			{Pkg: "gbn", Harness: "VH_C07_ServerSYN", MustReach: []string{"data-phase"}, Synctest: true,
 				What:  "real NewServerConn with every value 0..255 of the SYN window field, then SYNACK and a DATA packet",
 				Quick: q(nil)},
+			{Pkg: "mailbox", Harness: "VH_C19_MsgData_Canon", MustReach: []string{"canon", "rejected"}, What: "MsgData.Deserialize on every byte string of length 0..maxlen (32-bit length field fully symbolic)",
+				Quick: q(P("maxlen", 10)), Thorough: q(P("maxlen", 40))},
+			{Pkg: "mailbox", Harness: "VH_C07_KitJunk", MustReach: []string{"kit-junk"}, What: "connKit.Read on top of an arbitrary control message", Quick: q(P("maxlen", 9))},
+			{Pkg: "mailbox", Harness: "VH_C07_NoiseJunk", MustReach: []string{"noise-junk"}, What: "handshake act parsing (both roles, both patterns) on arbitrary bytes of lengths around every field boundary", Quick: qn(nil)},
+			{Pkg: "mailbox", Harness: "VH_C07_RecordJunk", MustReach: []string{"record-junk"}, What: "ReadMessage on an arbitrary byte stream of symbolic length 0..70000", Quick: qn(nil)},
 		},
 		Assumptions: commonAssumptions,
 		Bounds:      []string{"packet length 0..8 (quick) / 0..64 (thorough), all byte values; all 256 SYN window values; all 256 ACK/NACK values x all (base,top) x all n"},
@@ -94,6 +103,10 @@ var props = map[string]*Prop{
 				Quick: q(P("maxlen", 8)), Thorough: q(P("maxlen", 64))},
 			{Pkg: "gbn", Harness: "VH_C19_GBN_Canon", MustReach: []string{"canon"}, What: "any bytes of length 0..maxlen that deserialise re-serialise to an equal value",
 				Quick: q(P("maxlen", 8)), Thorough: q(P("maxlen", 64))},
+			{Pkg: "mailbox", Harness: "VH_C19_MsgData_RT", MustReach: []string{"roundtrip"}, What: "MsgData round trip, every version byte, payload 0..maxlen symbolic bytes",
+				Quick: q(P("maxlen", 8)), Thorough: q(P("maxlen", 64))},
+			{Pkg: "mailbox", Harness: "VH_C19_MsgData_Canon", MustReach: []string{"canon", "rejected"}, What: "any bytes of length 0..maxlen that deserialise as MsgData re-serialise to an equal value",
+				Quick: q(P("maxlen", 10)), Thorough: q(P("maxlen", 40))},
 		},
 		Assumptions: commonAssumptions,
 		Bounds:      []string{"payload / packet length 0..8 quick, 0..64 thorough; every byte and flag value symbolic"},
@@ -135,6 +148,11 @@ var props = map[string]*Prop{
 		Runs: []Run{
 			{Pkg: "mailbox", Harness: "VH_C16_Flush", MustReach: []string{"flushed"}, What: "Machine.Flush with a writer accepting arbitrary prefixes for up to `splits` calls; record length symbolic 0..65535",
 				Quick: qn(P("splits", 2)), Thorough: qnT(P("splits", 3), 120000)},
+			{Pkg: "mailbox", Harness: "VH_C16_HandshakeShortReads", MustReach: []string{"short-reads"}, Synctest: true,
+				What:  "real DoHandshake of both parties (XX v0/v1/v2 and KK) over a stream that fragments reads: bursts of `frags` short reads (1, 7 or len-1 bytes) at any of the first 7 read positions of either direction, or every read limited to 1 / 7 bytes",
+				Quick: qn(P("frags", 2)), Thorough: qn(P("frags", 3))},
+			{Pkg: "mailbox", Harness: "VH_C16_RecordShortReads", MustReach: []string{"record-short-reads"}, What: "a record (symbolic length) delivered with symbolic fragment sizes on up to `frags` reads",
+				Quick: qn(P("frags", 1)), Thorough: qnT(P("frags", 2), 60000)},
 		},
 		Assumptions: append([]string{"ideal AEAD (DESIGN.md 4.6)"}, commonAssumptions...),
 		Bounds:      []string{"plaintext length symbolic 0..65535; 2 (quick) / 3 (thorough) partial writes followed by complete ones, i.e. all 2-,3- and 4-way splits of the wire bytes"},
@@ -165,5 +183,65 @@ var props = map[string]*Prop{
 		},
 		Assumptions: append([]string{"ideal AEAD / HKDF (DESIGN.md 4.6); HKDF output freshness is assumed, the lock-step of both ends is what is checked"}, commonAssumptions...),
 		Bounds:      []string{"nonce symbolic in [0,999], key and salt symbolic; plaintext 0..3 (quick) / 0..16 bytes in the step; record length symbolic 0..65535 in the provenance check"},
+	},
+	"C03": {
+		ID: "C03",
+		Runs: []Run{
+			{Pkg: "mailbox", Harness: "VH_C03_XX", MustReach: []string{"mismatch", "match"}, Synctest: true,
+				What:  "real DoHandshake of both parties, two arbitrary 14-byte passphrase entropies, all version ranges, auth payload 0/7/600 bytes: mismatch => responder emits nothing and nobody gets keys",
+				Quick: qn(P("fixver", 1)), Thorough: qn(P("fixver", 0))},
+			{Pkg: "mailbox", Harness: "VH_C03_KK", MustReach: []string{"kk-mismatch", "kk-match"}, Synctest: true, What: "key-based handshake with arbitrary expected keys on either side", Quick: qn(nil)},
+			{Pkg: "mailbox", Harness: "VH_C03_Unpaired", MustReach: []string{"unpaired"}, Synctest: true, What: "paired (KK) server against a client that only has the passphrase (XX)", Quick: qn(nil)},
+		},
+		Assumptions: append([]string{"ideal cryptography (DESIGN.md 4.6): collision-free hashes/HKDF/scrypt, DH commutative and injective, Unmask(Mask(e,pw),pw')=e iff pw=pw', ideal AEAD; an adversary who knows a key is outside the claim"}, commonAssumptions...),
+		Bounds:      []string{"entropies fully symbolic (14 bytes each), static keys symbolic identities, version ranges {0,1,2}^4 (thorough) / client 0..2 x server max 0..2 (quick), auth payload 0/7/600 bytes"},
+		Outside:     []string{"computational strength of the primitives", "side channels"},
+	},
+	"C04": {
+		ID: "C04",
+		Runs: []Run{
+			{Pkg: "mailbox", Harness: "VH_C04_Honest", MustReach: []string{"honest", "both-complete"}, Synctest: true,
+				What:  "XX, every (cMin,cMax,sMin,sMax) in {0,1,2}^4, auth payload lengths {0,1,7,498,499,600}: completion iff compatible, agreement on keys/version/identities/payload",
+				Quick: qn(nil)},
+			{Pkg: "mailbox", Harness: "VH_C04_KK", MustReach: []string{"kk", "both-complete"}, Synctest: true, What: "KK, all version ranges, same agreement predicate", Quick: qn(nil)},
+			{Pkg: "mailbox", Harness: "VH_C04_MITM", MustReach: []string{"mitm", "both-complete"}, Synctest: true,
+				What:     "active man-in-the-middle: version byte of every act replaced by every value 0..3 (all combinations), optionally one byte of every act XORed with a non-zero mask at a symbolic position; both completing => agreement",
+				Quick:    qn(P("flips", 0)),
+				Thorough: qnT(P("flips", 1), 60000)},
+			{Pkg: "mailbox", Harness: "VH_C04_MITM", MustReach: []string{"mitm"}, Synctest: true,
+				What:  "same with byte flips, deployed configuration (both sides support 0..2)",
+				Quick: qn(P("flips", 1, "fixver", 1))},
+			{Pkg: "mailbox", Harness: "VH_C04_MITM_KK", MustReach: []string{"mitm-kk"}, Synctest: true, What: "the same for the key-based pattern", Quick: qn(nil)},
+		},
+		Assumptions: append([]string{"ideal cryptography (DESIGN.md 4.6); a flipped ciphertext byte never authenticates; a flipped key byte parses to an arbitrary (possibly invalid, possibly replayed) point"}, commonAssumptions...),
+		Bounds:      []string{"version ranges {0,1,2}^4; payload lengths {0,1,7,498,499,600}; MITM: all version-byte substitutions 0..3 on all acts at once, at most one flipped byte per act (symbolic position, symbolic non-zero mask)"},
+		Outside:     []string{"multi-megabyte payloads (the v1/v2 framing is length-generic; only lengths up to 600 are run)", "an adversary that injects own key material (its DH results are ideal secrets)"},
+	},
+	"C06": {
+		ID: "C06",
+		Runs: []Run{
+			{Pkg: "gbn", Harness: "VH_C06_Progress", MustReach: []string{"delivered", "quiet"}, Synctest: true,
+				What:     "finite fault prefix then reliable transport (latency 0 or 300 ms), static/adaptive timeouts, keep-alive off/on, uni/bidirectional: delivery within 10 virtual minutes, no closure, no retransmission after everything is acknowledged",
+				Quick:    &TierOpt{Params: P("maxn", 2, "msgs", 2, "faults", 2)},
+				Thorough: &TierOpt{Params: P("maxn", 2, "msgs", 3, "faults", 3), Sched: 1, MaxPaths: 3000000}},
+			{Pkg: "gbn", Harness: "VH_C06_TailBusy", MustReach: []string{"tail-delivered"}, Synctest: true,
+				What:  "tail loss while the peer streams every 0.5 s: the lost packet is delivered within 6 s irrespective of the peer's traffic",
+				Quick: q(P("peer_msgs", 40)), Thorough: q(P("peer_msgs", 200))},
+		},
+		Assumptions: commonAssumptions,
+		Bounds:      []string{"window 1..2, 2-3 messages per direction, fate of the first 2 (quick) / 3 (thorough) packets per direction symbolic in {deliver, drop, duplicate}; default schedule plus <= 1 deviation in thorough; horizon 600 virtual seconds (40x the worst completion seen in native calibration)"},
+		Outside:     []string{"fault sequences longer than the budget", "schedules with more deviations"},
+	},
+	"C17": {
+		ID: "C17",
+		Runs: []Run{
+			{Pkg: "mailbox", Harness: "VH_C17_EntropyToWords", Inits: []string{"github.com/lightningnetwork/lnd/aezeed"}, MustReach: []string{"entropy-words"}, What: "fully symbolic 14-byte entropy (112 bits) -> words -> entropy == entropy & mask110 (bit-stream codec if-converted: one path)", Quick: qn(nil)},
+			{Pkg: "mailbox", Harness: "VH_C17_WordsToEntropy", Inits: []string{"github.com/lightningnetwork/lnd/aezeed"}, MustReach: []string{"words-entropy"}, What: "10 symbolic word indices 0..2047 -> entropy -> the same words", Quick: qn(nil)},
+			{Pkg: "mailbox", Harness: "VH_C17_NewPassphrase", Inits: []string{"github.com/lightningnetwork/lnd/aezeed"}, MustReach: []string{"new-passphrase"}, What: "NewPassphraseEntropy returns a pair related by the codec (rand.Read symbolic)", Quick: qn(nil)},
+			{Pkg: "mailbox", Harness: "VH_C17_Direction", MustReach: []string{"direction"}, What: "GetSID direction bits for an arbitrary 64-byte session id", Quick: qn(nil)},
+			{Pkg: "mailbox", Harness: "VH_C17_SID", MustReach: []string{"sid-passphrase", "sid-keys"}, What: "ConnData.SID: passphrase ids agree iff the 14-byte entropies agree; key-based ids agree between paired parties, differ from the passphrase id and from a third party's", Quick: qn(nil)},
+		},
+		Assumptions: append([]string{"inverse-table lemma ReverseWordMap[DefaultWordList[i]] == i checked concretely on the real 2048-entry tables of this run", "ideal SHA-512/HMAC/ECDH (collision freedom, DH commutativity)"}, commonAssumptions...),
+		Bounds:      []string{"all 2^112 entropies and all 2048^10 phrases (single symbolic path each)"},
 	},
 }
